@@ -25,7 +25,7 @@ BAD = [
     'Ma DEFINITIONS ::= BEGIN\nAa ::= INTEGER\nEND\nMy DEFINITIONS ::= BEGIN\nBb ::= SEQUENCE {\nEND\n',
 ]
 DEST_STATES = ['absent', 'existing', 'dir', 'dir-existing-gen', 'dir-gen-is-dir', 'missing-parent', 'parent-is-file', 'readonly-file',
-               'readonly-parent', 'readonly-parent-absent', 'readonly-dir']
+               'readonly-parent', 'readonly-parent-absent', 'readonly-dir', 'dir-dotted', 'noext-absent', 'noext-existing']
 
 
 def unprotect(path):
@@ -78,7 +78,7 @@ def prepare(case_dir, state, ext):
         rel = 'o/out' + ext
         if state not in ('absent', 'readonly-parent-absent'):
             with open(os.path.join(case_dir, rel), 'wb') as f:
-                f.write(b'OLD CONTENT\n')
+                f.write(b'OLD CONTENT\n' * 130)
         if state == 'readonly-file':
             prot.append(os.path.join(case_dir, rel))
             can = False
@@ -88,12 +88,19 @@ def prepare(case_dir, state, ext):
         if state == 'readonly-parent-absent':
             prot.append(os.path.join(case_dir, 'o'))
             can = False
-    elif state in ('dir', 'dir-existing-gen', 'dir-gen-is-dir', 'readonly-dir'):
-        rel = 'outdir'
+    elif state in ('noext-absent', 'noext-existing'):
+        # a file destination without an extension
+        os.makedirs(os.path.join(case_dir, 'o'))
+        rel = 'o/bindings'
+        if state == 'noext-existing':
+            with open(os.path.join(case_dir, rel), 'wb') as f:
+                f.write(b'OLD CONTENT THAT IS LONGER THAN ANY GENERATED TEXT ' * 30)
+    elif state in ('dir', 'dir-existing-gen', 'dir-gen-is-dir', 'readonly-dir', 'dir-dotted'):
+        rel = 'outdir' if state != 'dir-dotted' else 'out.v2'
         os.makedirs(os.path.join(case_dir, rel))
         if state == 'dir-existing-gen':
             with open(os.path.join(case_dir, rel, 'generated' + ext), 'wb') as f:
-                f.write(b'STALE\n')
+                f.write(b'STALE\n' * 260)
         if state == 'dir-gen-is-dir':
             os.makedirs(os.path.join(case_dir, rel, 'generated' + ext))
         if state == 'readonly-dir':
@@ -254,7 +261,8 @@ def cli_part(ck, protected):
         ext = '.rs' if backend == 'rasn' else '.ts'
         out_arg = rng.choice(['path', 'stdout', 'none', 'default', 'path'])
         kind = rng.choice(['good', 'good', 'bad', 'warn'])
-        st = rng.choice(['absent', 'existing', 'dir', 'dir-existing-gen', 'missing-parent', 'readonly-file']) if out_arg == 'path' else 'absent'
+        st = rng.choice(['absent', 'existing', 'dir', 'dir-existing-gen', 'missing-parent', 'readonly-file', 'dir-dotted', 'noext-absent',
+                         'noext-existing']) if out_arg == 'path' else 'absent'
         dest, rel, rel_gen, can, prot = prepare(case_dir, st, ext)
         protected += prot
         cwd = os.path.join(case_dir, 'cwd')
